@@ -12,10 +12,11 @@ ASSUMPTIONS = [
 ]
 
 URLS = {
-    "A": ["https://a.example/auth", "https://a.example/auth?x=1#f", "https://a2.example/authorize"],
-    "T": ["https://t.example/token", "https://t2.example/token?y=2", "https://t.example/" + "a" * 70000],
-    "D": ["https://d.example/device", "https://d2.example/device#frag"],
-    "I": ["https://i.example/introspect", "https://i2.example/introspect"],
+    # (plain-http endpoints on a host that is not the local machine included: only revocation is restricted to https)
+    "A": ["https://a.example/auth", "https://a.example/auth?x=1#f", "https://a2.example/authorize", "http://a3.internal.example:8080/auth"],
+    "T": ["https://t.example/token", "https://t2.example/token?y=2", "https://t.example/" + "a" * 70000, "http://t3.internal.example:8080/token", "http://10.0.0.7/token"],
+    "D": ["https://d.example/device", "https://d2.example/device#frag", "http://d3.internal.example/device"],
+    "I": ["https://i.example/introspect", "https://i2.example/introspect", "http://i3.internal.example/introspect"],
     "R": ["https://r.example/revoke", "http://r.example/revoke", "HTTPS://r2.example/revoke"],   # index 0 https, 1 http
 }
 SECRETS = ["bbb", "p:w ä", "", "eu:s3cret"]
@@ -66,7 +67,7 @@ def gen(tier, rng):
         ops = []
         for ep, k in zip("ATDIR", combo):
             if k != "skip":
-                ops.append(op_token(k, ep, k=rng.randint(0, 2)))
+                ops.append(op_token(k, ep, k=rng.randint(0, 4)))
         ops.append(op_token("secret", k=rng.randint(0, 2)))
         if rng.random() < 0.5:
             ops.append(op_token("body"))
@@ -105,13 +106,21 @@ def gen(tier, rng):
         REDIRS[:] = saved[1]
         for e in "ATDIR":
             URLS[e] = saved[2][e]
+    # every URL of every endpoint (plain http on other hosts included), unconditionally and conditionally set, alone and
+    # together with the others: each flow goes to the URL of ITS endpoint, whatever that URL is
+    for e in "ATDIR":
+        for k in range(len(URLS[e])):
+            for how in ("set", "some"):
+                out.append((line([op_token(how, e, k=k), op_token("secret", k=0)]), "every-url"))
+                others = [op_token("set", o, k=(k + j) % len(URLS[o])) for j, o in enumerate("ATDIR") if o != e]
+                out.append((line(others[:2] + [op_token(how, e, k=k)] + others[2:] + [op_token("secret", k=1), op_token("redirect", k=0)]), "every-url"))
     n = 1500 if tier == "quick" else 50000
     for _ in range(n):
         L = rng.randint(3, 10)
         ops = []
         for _ in range(L):
             k, e = rng.choice(OPS19)
-            ops.append(op_token(k, e, k=rng.randint(0, 2)))
+            ops.append(op_token(k, e, k=rng.randint(0, 4)))
         out.append((line(ops), "random"))
     return out
 
